@@ -43,8 +43,11 @@ PathVarNotString(e) == /\ "D_ts_server_path_params_raw_strings" \in Dev /\ e.wha
                        /\ \E f \in Range(MsgByName(schema, e.msg).fields) : f.name \in Range(e.pathVars) /\ TsNotString(f)
 \* where the Go server does not speak the contract form (C05's findings), the contract-form half of
 \* the statement is vacuous: only the real wire is judged
-C05Guard(top) ==
-  IF "D_nested_codec_ignored" \in Dev /\ NestedAnnotated(schema, top) THEN "D_nested_codec_ignored"
+\* (D_nested_codec_ignored is one definite wire form - nested messages in plain proto3 JSON -, not a licence)
+C05Guard(e) ==
+  LET top == e.val.type IN
+  IF "D_nested_codec_ignored" \in Dev /\ NestedAnnotated(schema, top)
+     /\ (~e.hasJson \/ Canon(e.json) = Enc(schema, e.val) \/ Canon(e.json) = EncPlainNested(schema, e.val)) THEN "D_nested_codec_ignored"
   ELSE IF "D_stdjson_children" \in Dev /\ StdJsonOnPath(schema, top) THEN "D_stdjson_children"
   ELSE IF "D_enum_annotations_ignored" \in Dev /\ EnumAnnotated(schema, top) THEN "D_enum_annotations_ignored"
   ELSE ""
@@ -52,20 +55,25 @@ CheckHow(e) ==
   LET D == IF e.what = "handler" THEN sdecls ELSE cdecls
       cOK(lax) == ~e.hasVal \/ Inh(DeclTable(D), Enc(schema, e.val), e.ty, TsFuel, lax)
       wOK(lax) == ~e.hasJson \/ Inh(DeclTable(D), Canon(e.json), e.ty, TsFuel, lax)
-      g == IF e.hasVal THEN C05Guard(e.val.type) ELSE ""
+      g == IF e.hasVal THEN C05Guard(e) ELSE ""
   IN IF cOK(FALSE) /\ wOK(FALSE) THEN "ok"
      \* proto3 JSON omits zero-valued members which the interfaces declare as required: every member
      \* present is still of its declared type and declared (request bodies and server results only)
      ELSE IF "D_ts_zero_fields_required" \in Dev /\ e.what \in {"request", "result"} /\ cOK(TRUE) /\ wOK(TRUE) THEN "D_ts_zero_fields_required"
      ELSE IF PathVarNotString(e) THEN "D_ts_server_path_params_raw_strings"
+     \* (a root-unwrap message as the VALUE of a map is declared right - Record<string, X[]> - and is no part of
+     \* the finding: the message must be the request itself or sit behind a singular / repeated / oneof field)
      ELSE IF "D_ts_root_unwrap_only_results" \in Dev /\ e.hasVal /\ HasMsg(schema, e.val.type)
-             /\ \E n \in Reach(schema, {e.val.type}, {}) : IsRootUnwrap(MsgByName(schema, n)) /\ (n # e.val.type \/ e.what = "request")
+             /\ \/ (e.what = "request" /\ IsRootUnwrap(MsgByName(schema, e.val.type)))
+                \/ \E m \in Reach(schema, {e.val.type}, {}) : \E f \in Range(MsgByName(schema, m).fields) :
+                      f.kind = "message" /\ f.card # "map" /\ HasMsg(schema, f.ref) /\ IsRootUnwrap(MsgByName(schema, f.ref))
           THEN "D_ts_root_unwrap_only_results"
      ELSE IF "D_ts_wkt_as_objects" \in Dev /\ e.hasVal /\ WktScalarReachable(schema, e.val.type) THEN "D_ts_wkt_as_objects"
      ELSE IF "D_ts_nested_flatten" \in Dev /\ e.hasVal /\ NestedFlatten(schema, e.val.type) THEN "D_ts_nested_flatten"
      ELSE IF g # "" /\ (wOK(TRUE) \/ cOK(TRUE)) THEN g
      ELSE IF ~cOK(TRUE) THEN "contract_form_not_in_type"
-     ELSE IF e.hasVal /\ e.hasJson /\ Canon(e.json) # Enc(schema, e.val) THEN "wire_not_contract_form"     \* C05's finding, not the types'
+     \* (a wire that is neither the contract form nor a listed finding of C05 and is not a value of the declared
+     \* type is a violation here as well, whoever is to blame)
      ELSE CASE e.what = "result" -> "wire_not_in_result_type" [] e.what = "handler" -> "handler_argument_not_in_request_type" [] OTHER -> "json_not_in_type"
 TCheck == /\ IsEvent("TsCheck")
           /\ LET h == CheckHow(Tr[l]) IN
